@@ -8,6 +8,9 @@
      44 c 0 0   the transport conn's AcceptStream returned an inbound stream of conn c to the swarm
      46 c 0 0   the swarm's stream handler was called with an inbound stream of conn c
      47 c b 0   a reader of the conn table (ConnsToPeer, any moment of the run) found c listed (b=1) / not listed (b=0)
+   The error value a transport conn's Close / CloseWithError returns is not part of the model nor of the wire
+   format: a conn whose Close reports an error is closed and delisted all the same (labels 33/34), and every clause
+   judges it like any other conn.
    clauses (numbers as reported by the monitor):
       7  no inbound stream is accepted from the transport / handed to the stream handler before Connected(c) RETURNED
      11  truthful listing: a listed conn was given to addConn, was not refused, and its Disconnected has not begun;
